@@ -420,3 +420,7 @@ def c18_5(run):
     if not n_ok:
         raise Inconclusive('vacuity: no successful refund')
     run.require_reached(*run.cur.reach)
+
+
+from obligations import shared_ctor as _ctor
+obligation('C18', 'C18-1c the constructor invariant the withdrawal obligations assume: the debited account is the named bridge account, otherwise the signer (= C02-N)')(_ctor.constructors_obligation)
